@@ -1,4 +1,4 @@
-package main
+package main_test
 
 // C18 — concealed and mixed criteria are well-formed additions.
 
